@@ -21,12 +21,12 @@ var cuttingFuncs = map[string]bool{
 }
 
 type xformWalk struct {
-	p     *Program
-	seen  map[ssa.Value]bool
-	found map[string]bool
-	stop  func(v ssa.Value) bool
-	all   bool // record cutting functions as well
-	local bool // do not leave the function through its parameters
+	p      *Program
+	seen   map[ssa.Value]bool
+	found  map[string]bool
+	stop   func(v ssa.Value) bool
+	all    bool // record cutting functions as well
+	local  bool // do not leave the function through its parameters
 	fields bool // follow string fields of module structs to the values stored into them
 }
 
